@@ -8,12 +8,13 @@ mkdir -p .cache evidence replays
 cp /repo/Cargo.lock replay/common/Cargo.lock
 (cd replay/common && cargo build --offline -q --target-dir ../../.cache/replay-target && cargo build --offline -q --release --target-dir ../../.cache/replay-target)
 (cd replay/pool && cp /repo/Cargo.lock . && cargo build --offline -q --target-dir ../../.cache/replay-target && cargo build --offline -q --release --target-dir ../../.cache/replay-target)
+(cd replay/lottery && cp /repo/Cargo.lock . && cargo build --offline -q --release --target-dir ../../.cache/replay-target)
 # warm the MIR target dir (dependencies) so that per-check dumps only recompile the crate itself
 python3-vt - <<'PY'
 import sys
 sys.path.insert(0, '.')
 from lib import mir
-for c in ("mithril-common",):
+for c in ("mithril-common", "mithril-stm"):
     p, dt = mir.dump(c)
     print("MIR dump", c, "%.1fs" % dt)
 PY
